@@ -86,6 +86,19 @@ func (s *sched) fire(owner string) (time.Duration, int, bool) {
 	return t.d, 1, true
 }
 
+// take dequeues the single armed timer of the owner without running it (the caller runs t.cb later): what a
+// scheduler does between a timer becoming due and its callback getting to execute.
+func (s *sched) take(owner string) *vtimer {
+	a := s.active(owner)
+	if len(a) != 1 {
+		return nil
+	}
+	s.mu.Lock()
+	a[0].fired = true
+	s.mu.Unlock()
+	return a[0]
+}
+
 // waitArmed waits until the owner has an armed timer scheduled after seq `after` (re-arm done), or timeout.
 func (s *sched) waitArmed(owner string, after int, timeout time.Duration) bool {
 	deadline := time.Now().Add(timeout)
